@@ -336,6 +336,7 @@ func ruleArchStep(r *Run, v *variant) {
 			return true
 		})
 		r.check(good, "R01.3", c+":next-pc", v.run.Pos(), "the next instruction is at NextPc when PcChange is set and at pc+4 otherwise")
+		r.check(returnEndsRun(info, v.run.Body), "R01.3", c+":return-ends-run", v.run.Pos(), "an execution with Return set ends the run")
 	}
 }
 
@@ -369,7 +370,36 @@ func ruleRunnerStep(r *Run) {
 		return true
 	})
 	r.check(!nilMem && feeds, "R01.3", "risc.(*Runner).Run:memory-argument", fd.Pos(), "the sequential reference reads the bytes at MemoryRead's addresses (%v) and passes them to Run (nil literal: %v)", feeds, nilMem)
+	r.check(returnEndsRun(info, fd.Body), "R01.3", "risc.(*Runner).Run:return-ends-run", fd.Pos(), "an execution with Return set ends the run (as in the twelve variants): ret in the middle of a program must not fall through to the next instruction")
 }
+
+// returnEndsRun: the body tests the Return flag of an execution and leaves (return or break) when it is set.
+func returnEndsRun(info *types.Info, body ast.Node) bool {
+	found := false
+	ast.Inspect(body, func(m ast.Node) bool {
+		is, ok := m.(*ast.IfStmt)
+		if !ok {
+			return true
+		}
+		sel, ok := ast.Unparen(is.Cond).(*ast.SelectorExpr)
+		if !ok || sel.Sel.Name != "Return" || typeName(info.TypeOf(sel.X)) != "Execution" {
+			return true
+		}
+		if len(is.Body.List) > 0 {
+			switch x := is.Body.List[len(is.Body.List)-1].(type) {
+			case *ast.ReturnStmt:
+				found = true
+			case *ast.BranchStmt:
+				if x.Tok == token.BREAK {
+					found = true
+				}
+			}
+		}
+		return true
+	})
+	return found
+}
+
 
 // ruleFetchBounded: every fetch app.Instructions[x] of the variant is under a
 // test of the index against the program length (in the function before the
